@@ -4,7 +4,8 @@
 From Coq Require Import List Arith ZArith Ring Lia Reals.
 From TLV Require Import Base.Shape Base.PyList Base.Tensor Base.Ops Model.SvdDecomp Proofs.SvdDecompProofs
      Proofs.SvdDecompProofsR Proofs.SvdDecompTucker Proofs.SvdDecompTuckerFull Proofs.SvdDecompTuckerR
-     Proofs.SvdDecompRing Proofs.SvdDecompRingR.
+     Proofs.SvdDecompRing Proofs.SvdDecompRingR Proofs.SvdDecompPyth Proofs.SvdDecompError
+     Proofs.SvdDecompTails Proofs.SvdDecompErrorR Proofs.SvdDecompTTM.
 Import ListNotations.
 
 (* exactness of one TT-SVD step, over every commutative ring: truncating + sign-flipping a
@@ -206,6 +207,150 @@ Proof.
   change (hd 0 (shape (transpose (f0 Zops) (rotate 1 (seq 0 2)) (mk [2; 2] [2; 0; 0; 0]%Z)))) with 2.
   change (prod (tl (shape (transpose (f0 Zops) (rotate 1 (seq 0 2)) (mk [2; 2] [2; 0; 0; 0]%Z))))) with 2.
   change (nth 0 (tr_rotate_rank 2 1 [1; 1; 1]) 0 * nth 1 (tr_rotate_rank 2 1 [1; 1; 1]) 0) with 1.
+  split; [lia|]. split; [reflexivity|]. split; [reflexivity|]. split.
+  { intros i c Hi Hc.
+    assert (Ei : i = 0 \/ i = 1) by lia. assert (Ec : c = 0 \/ c = 1) by lia.
+    destruct Ei as [-> | ->]; destruct Ec as [-> | ->]; vm_compute; reflexivity. }
+  split.
+  { intros l H1 H2. assert (l = 1) by lia. subst. reflexivity. }
+  split; [simpl; lia|].
+  vm_compute. repeat constructor.
+Qed.
+
+(* the splitting of a truncation error (every commutative ring): for U with orthonormal columns,
+   |M - U T|^2 = |M - U U^T M|^2 + |U^T M - T|^2  (sums of squares over all entries) *)
+Theorem C09_truncation_error_split : forall (F : Type) (Op : fops F),
+  ring_theory (f0 Op) (f1 Op) (fadd Op) (fmul Op) (fsub Op) (fopp Op) (@eq F) ->
+  forall (m n r : nat) (U M T : nat -> nat -> F),
+  orthonormal_fun Op U m r ->
+  let Wp := fun b col => fsumn Op m (fun i => fmul Op (U i b) (M i col)) in
+  fsumn Op m (fun i => fsumn Op n (fun col =>
+     sq Op (fsub Op (M i col) (fsumn Op r (fun b => fmul Op (U i b) (T b col)))))) =
+  fadd Op
+    (fsumn Op m (fun i => fsumn Op n (fun col =>
+       sq Op (fsub Op (M i col) (fsumn Op r (fun b => fmul Op (U i b) (Wp b col)))))))
+    (fsumn Op r (fun b => fsumn Op n (fun col => sq Op (fsub Op (Wp b col) (T b col))))).
+Proof. exact @pythagoras_mat. Qed.
+Print Assumptions C09_truncation_error_split.
+
+(* the TT-SVD error identity, every order, every rank request, every commutative ring, NO assumption on the
+   discarded singular values: if every SVD answer of the run has orthonormal left singular vectors and
+   multiplies back to its query (loop_orth), the squared error of the sequential-SVD loop equals the sum
+   over the steps of the squared norms of what each truncation discards from its working unfolding *)
+Theorem C09_chain_loop_error_identity : forall (F : Type) (Op : fops F),
+  ring_theory (f0 Op) (f1 Op) (fadd Op) (fmul Op) (fsub Op) (fopp Op) (@eq F) ->
+  forall (svd : nat -> tensor F -> svdans) (sizes : list nat) (k : nat) (ranks : list nat) (rk r0 : nat)
+         (W : list F) (cores : list (tensor F)),
+  loop_orth Op svd k sizes ranks rk r0 W ->
+  chain_loop Op svd k sizes ranks rk r0 W = Ok cores ->
+  err2 Op sizes rk r0 W cores = loop_discard Op svd k sizes ranks rk r0 W.
+Proof. exact @chain_loop_error_identity. Qed.
+Print Assumptions C09_chain_loop_error_identity.
+
+Theorem C09_tensor_train_error_identity : forall (F : Type) (Op : fops F),
+  ring_theory (f0 Op) (f1 Op) (fadd Op) (fmul Op) (fsub Op) (fopp Op) (@eq F) ->
+  forall (svd : nat -> tensor F -> svdans) (X : tensor F) (rank : rank_spec) (cores : list (tensor F)),
+  tt_orth Op svd X rank -> tensor_train Op svd X rank = Ok cores ->
+  tt_err2 Op X cores = tt_discard Op svd X rank.
+Proof. exact @tensor_train_error_identity. Qed.
+Print Assumptions C09_tensor_train_error_identity.
+
+(* non-vacuity with a genuine truncation: diag(2,1), request (1,1,1): error^2 = 1 = discarded sigma^2 *)
+Example C09_nonvacuous_error_identity :
+  let X := mk [2; 2] [2; 0; 0; 1]%Z in
+  let svd := fun (_ : nat) (_ : tensor Z) => (mk [2; 2] [1; 0; 0; 1]%Z, [2; 1]%Z, mk [2; 2] [1; 0; 0; 1]%Z) in
+  tt_orth Zops svd X (inr [1; 1; 1]) /\
+  tensor_train Zops svd X (inr [1; 1; 1]) = Ok [mk [1; 2; 1] [1; 0]%Z; mk [1; 2; 1] [2; 0]%Z] /\
+  tt_err2 Zops X [mk [1; 2; 1] [1; 0]%Z; mk [1; 2; 1] [2; 0]%Z] = 1%Z /\
+  tt_discard Zops svd X (inr [1; 1; 1]) = 1%Z.
+Proof.
+  cbv zeta. split; [|repeat split; vm_compute; reflexivity].
+  unfold tt_orth. cbn [validate_tt_rank ndim shape length Nat.add Nat.eqb hd last andb tl].
+  unfold loop_orth. cbn [loop_pred]. cbv zeta. split; [|vm_compute; exact I].
+  exists 2.
+  change (Nat.min (1 * 2) (Nat.min (prod [2] * 1) (hd 1 [1; 1]))) with 1.
+  change (prod [2] * 1) with 2. change (1 * 2) with 2.
+  split; [lia|]. split; [reflexivity|]. split; [reflexivity|]. split.
+  { intros j l Hj Hl.
+    assert (Ej : j = 0 \/ j = 1) by lia. assert (El : l = 0 \/ l = 1) by lia.
+    destruct Ej as [-> | ->]; destruct El as [-> | ->]; vm_compute; reflexivity. }
+  split.
+  { intros i c Hi Hc.
+    assert (Ei : i = 0 \/ i = 1) by lia. assert (Ec : c = 0 \/ c = 1) by lia.
+    destruct Ei as [-> | ->]; destruct Ec as [-> | ->]; vm_compute; reflexivity. }
+  split; [simpl; lia|].
+  vm_compute. repeat constructor.
+Qed.
+
+(* under the full SVD contract (orthonormal columns of U, orthonormal rows of Vh, U diag(S) Vh = query) the
+   squared norm of what a truncation at r discards is the sum of the squared discarded singular values *)
+Theorem C09_discarded_part_is_tail : forall (F : Type) (Op : fops F),
+  ring_theory (f0 Op) (f1 Op) (fadd Op) (fmul Op) (fsub Op) (fopp Op) (@eq F) ->
+  forall (M : tensor F) (m n r : nat) (U : tensor F) (Sv : list F) (V : tensor F),
+  step_full Op M m n r (U, Sv, V) ->
+  let '(U', S', V') := svd_interface Op (U, Sv, V) r in
+  disc Op M U' S' V' m n r = tail2 Op r Sv.
+Proof. exact @disc_tail. Qed.
+Print Assumptions C09_discarded_part_is_tail.
+
+(* tensor_train over R, every order and rank request, under the full SVD contract for every call of the run:
+   squared error = sum over the steps of the discarded squared singular values of the working unfoldings *)
+Theorem C09_tt_error_sigma_R : forall (svd : nat -> tensor R -> svdans) (X : tensor R) (rank : rank_spec)
+    (cores : list (tensor R)),
+  tt_full_R svd X rank -> tensor_train Rops svd X rank = Ok cores ->
+  tt_err2 Rops X cores = Rsum (tt_tail_list svd X rank).
+Proof. exact tt_error_sigma_R. Qed.
+Print Assumptions C09_tt_error_sigma_R.
+
+(* lower bound (full): the squared error is at least every single discarded tail of a working unfolding; the
+   first working unfolding is the first sequential unfolding of X itself *)
+Theorem C09_tt_error_lower_R : forall (svd : nat -> tensor R -> svdans) (X : tensor R) (rank : rank_spec)
+    (cores : list (tensor R)),
+  tt_full_R svd X rank -> tensor_train Rops svd X rank = Ok cores ->
+  forall t, In t (tt_tail_list svd X rank) -> (t <= tt_err2 Rops X cores)%R.
+Proof. exact tt_error_lower_R. Qed.
+Print Assumptions C09_tt_error_lower_R.
+
+(* upper bound (PARTIAL): given per-step bounds bs on the discarded tails of the working unfoldings, the squared
+   error is at most their sum.  With bs = the discarded tails of the sequential unfoldings of X this is the
+   root-sum-square bound of the property; that premise (tail of the k-th working unfolding <= tail of the k-th
+   unfolding of X: Eckart-Young / interlacing for a projected matrix) is NOT proved here, it is the named
+   hypothesis Forall2 Rle (tt_tail_list ...) bs *)
+Theorem C09_tt_error_upper_partial : forall (svd : nat -> tensor R -> svdans) (X : tensor R) (rank : rank_spec)
+    (cores : list (tensor R)) (bs : list R),
+  tt_full_R svd X rank -> tensor_train Rops svd X rank = Ok cores ->
+  Forall2 Rle (tt_tail_list svd X rank) bs ->
+  (tt_err2 Rops X cores <= Rsum bs)%R.
+Proof. exact tt_error_upper_partial_R. Qed.
+Print Assumptions C09_tt_error_upper_partial.
+
+(* tensor_train_matrix, every number of (input, output) mode pairs, every commutative ring: when no SVD call
+   of the underlying TT-SVD (on the interleaved, pair-merged tensor) discards a non-zero singular value, the
+   TT-matrix contraction of the returned 4-D cores is X[i_1..i_d, j_1..j_d] *)
+Theorem C09_tensor_train_matrix_exact : forall (F : Type) (Op : fops F),
+  ring_theory (f0 Op) (f1 Op) (fadd Op) (fmul Op) (fsub Op) (fopp Op) (@eq F) ->
+  forall (svd : nat -> tensor F -> svdans) (X : tensor F) (rank : rank_spec) (cores : list (tensor F)),
+  ttm_ok Op svd X rank -> tensor_train_matrix Op svd X rank = Ok cores ->
+  forall is_ js, inb (firstn (ndim X / 2) (shape X)) is_ -> inb (skipn (ndim X / 2) (shape X)) js ->
+  ttm_entry Op cores is_ js = get (f0 Op) X (is_ ++ js).
+Proof. exact @tensor_train_matrix_exact. Qed.
+Print Assumptions C09_tensor_train_matrix_exact.
+
+Example C09_nonvacuous_ttm :
+  let X := mk [2; 2; 1; 1] [2; 0; 0; 0]%Z in
+  let svd := fun (_ : nat) (_ : tensor Z) => (mk [2; 2] [1; 0; 0; 1]%Z, [2; 0]%Z, mk [2; 2] [1; 0; 0; 1]%Z) in
+  ttm_ok Zops svd X (inr [1; 1; 1]) /\
+  tensor_train_matrix Zops svd X (inr [1; 1; 1]) = Ok [mk [1; 2; 1; 1] [1; 0]%Z; mk [1; 2; 1; 1] [2; 0]%Z].
+Proof.
+  cbv zeta. split; [|vm_compute; reflexivity].
+  unfold ttm_ok. cbv zeta.
+  change (Nat.eqb (ndim (mk [2; 2; 1; 1] [2; 0; 0; 0]%Z) / 2) 1) with false. cbv iota.
+  match goal with |- tt_ok _ _ ?T _ => let T' := eval vm_compute in T in change T with T' end.
+  unfold tt_ok. cbn [validate_tt_rank ndim shape length Nat.add Nat.eqb hd last andb tl].
+  unfold loop_ok. cbn [loop_pred]. cbv zeta. split; [|vm_compute; exact I].
+  exists 2.
+  change (Nat.min (1 * 2) (Nat.min (prod [2] * 1) (hd 1 [1; 1]))) with 1.
+  change (prod [2] * 1) with 2. change (1 * 2) with 2.
   split; [lia|]. split; [reflexivity|]. split; [reflexivity|]. split.
   { intros i c Hi Hc.
     assert (Ei : i = 0 \/ i = 1) by lia. assert (Ec : c = 0 \/ c = 1) by lia.
